@@ -313,6 +313,14 @@ package node
 //@   ensures[K2_data] dsKept(cr) && crOK(cr)
 //@   ensures[K1_desc] descOnly(result, srcsel) && (bck(result, srcsel) == bytecode.AddrStck || (bck(result, srcsel) == bytecode.AddrInv && fl.Data().Returning))
 //@   ensures[cond_tested;C12,C09] exists k :: old(len(*cr.CS)) <= k && k < len(*cr.CS) && isCondJump((*cr.CS)[k])
+// C12: skipping the loop (condition false at entry) leaves the initial nil as the loop's value, also when
+// the loop is the last statement of a function; C09: an iteration whose value is on the stack pops the
+// previous one first, so the loop's working storage does not grow with the iteration count.
+//@   atcall bytecode.EncodeSrc(1, bytecode.AddrImm, endAddr with (callee_srcAddr int) requires[zero_iterations_yield_nil;C12,C09]
+//@       (returning ==> 0 <= initJmpFAddr + callee_srcAddr && initJmpFAddr + callee_srcAddr < len(*cr.CS) && bcop((*cr.CS)[initJmpFAddr + callee_srcAddr]) == bytecode.RET && bck((*cr.CS)[initJmpFAddr + callee_srcAddr], 0) == bytecode.AddrStck)
+//@       && (!returning ==> initJmpFAddr + callee_srcAddr == len(*cr.CS))
+//@   atcall bytecode.EncodeSrc(1, bytecode.AddrImm, jumpBack with (callee_srcAddr int) requires[iteration_pops_previous;C09,C12]
+//@       body.Src0() == bytecode.AddrStck ==> 0 <= jumpBackAddr + callee_srcAddr && jumpBackAddr + callee_srcAddr < len(*cr.CS) && bcop((*cr.CS)[jumpBackAddr + callee_srcAddr]) == bytecode.POP
 //
 // Entry points: a statement compiled for its value leaves exactly one PUSH when its result is not
 // already on the stack; compiled for effect, one POP when it is.
